@@ -229,6 +229,18 @@ theorem contentOpenCheck_true_inv (H : Bytes → Bytes) (b : Bytes)
 
 theorem locationString_nil : locationString [] = "" := rfl
 
+theorem isManifestAt_eq (f : Bytes) (q : PackAt) :
+    isManifestAt f q =
+      match packHeaderOf (slice f q.origin q.size) with
+      | .ok h => decide (h.kind = .manifest)
+      | _ => false := rfl
+
+/-- a region holding a pack with a readable header is a manifest iff the header says so -/
+theorem isManifestAt_of_header (f : Bytes) (q : PackAt) (h : PackHeader)
+    (hh : packHeaderOf (slice f q.origin q.size) = .ok h) :
+    isManifestAt f q = decide (h.kind = .manifest) := by
+  rw [isManifestAt_eq, hh]
+
 theorem find?_uuid_some {ps : List PackAt} {u : Bytes} {q : PackAt}
     (h : ps.find? (fun p => p.uuid == u) = some q) : q ∈ ps ∧ q.uuid = u :=
   ⟨List.mem_of_find?_eq_some h, by simpa using List.find?_some h⟩
@@ -277,12 +289,8 @@ theorem container_created_verifies (H : Bytes → Bytes) (fs : FS) (entry : Stri
     have hism : isManifestAt (containerPackWrite uuid freeData packs) mp = true :=
       List.find?_some hfind
     have hkm : h.kind = .manifest := by
-      unfold isManifestAt at hism
-      rw [hs] at hism
-      change (match packHeaderOf p.2 with | .ok h => decide (h.kind = .manifest) | _ => false) = true
-        at hism
-      rw [h1] at hism
-      simpa using hism
+      rw [isManifestAt_of_header _ mp h (by rw [hs]; exact h1)] at hism
+      exact of_decide_eq_true hism
     rw [hman, hs]
     rw [hkm] at h3
     exact manifestOpenCheck_true_inv H _ h3
